@@ -906,6 +906,12 @@ void MEDDLY::fbuilder_forest::setPathToBottom(int L, const minterm &m,
     MEDDLY_DCASSERT(L>0);
     MEDDLY_DCASSERT(!m.isForRelations());
 
+    //
+    // The minterm's value is the default (zero) edge: nothing to build.
+    // (The sparse nodes below must not hold a transparent entry.)
+    //
+    if (default_is_zero && F->isTransparentEdge(cv, cp)) return;
+
     for (int k=1; k<=L; k++) {
         if (DONT_CARE == m.from(k)) {
             cp = F->makeRedundantsTo(cp, k-1, k);
@@ -928,6 +934,12 @@ void MEDDLY::fbuilder_forest::relPathToBottom(int L, const minterm &m,
 {
     MEDDLY_DCASSERT(L>0);
     MEDDLY_DCASSERT(m.isForRelations());
+
+    //
+    // The minterm's value is the default (zero) edge: nothing to build.
+    // (The sparse nodes below must not hold a transparent entry.)
+    //
+    if (default_is_zero && F->isTransparentEdge(cv, cp)) return;
 
     if (F->isIdentityReduced() && default_is_zero) {
         //
